@@ -138,6 +138,76 @@ class World(object):
         self.mapped = []          # (actor, path, ino)
         self.final_paths = {}     # canonical request -> set of dllpaths reported
 
+    # -- process-private module state ---------------------------------------------
+    # Simulated processes share one interpreter.  kerneldll's module-level
+    # *data* (a build-directory memo, say) would then be shared between
+    # "processes" although every real process has its own copy, so it is
+    # swapped at every hand-over: each process sees its own copy (pristine at
+    # start, or - for a process forked from another - a copy of the parent's
+    # at the moment of the fork).
+    SEAM_NAMES = ("subprocess", "ct", "os", "tempfile", "SAS_DLL_PATH")
+
+    def _module_data(self):
+        import types
+        from sasmodels import kerneldll as kd
+        out = {}
+        for name, val in list(vars(kd).items()):
+            if name.startswith("__") or name in self.SEAM_NAMES:
+                continue
+            if isinstance(val, (dict, list, set)):
+                out[name] = val
+            elif isinstance(val, (int, float, str, bool, tuple, type(None))) and not name.isupper():
+                out[name] = val
+        return out
+
+    def init_private_state(self):
+        import copy
+        self._pristine = copy.deepcopy(self._module_data())
+        self._names = set(self._pristine)
+
+    def switch_out(self, a):
+        if a.kind != "proc":
+            return
+        from sasmodels import kerneldll as kd
+        cur = self._module_data()
+        self._names |= set(cur)
+        a.data["modstate"] = cur
+
+    def switch_in(self, a):
+        if a.kind != "proc":
+            return
+        import copy
+        from sasmodels import kerneldll as kd
+        st = a.data.get("modstate")
+        if st is None:
+            src = a.data.get("forked_from")
+            parent = self.sched.by_name.get(src) if src else None
+            if parent is not None and parent.data.get("modstate") is not None:
+                st = copy.deepcopy(parent.data["modstate"])
+                self.probe("forked_child_inherits_module_state")
+            else:
+                st = copy.deepcopy(self._pristine)
+            a.data["modstate"] = st
+        for name in self._names:
+            if name in st:
+                setattr(kd, name, st[name])
+            elif hasattr(kd, name):
+                try:
+                    delattr(kd, name)
+                except AttributeError:
+                    pass
+
+    def restore_pristine(self):
+        from sasmodels import kerneldll as kd
+        for name in self._names:
+            if name in self._pristine:
+                setattr(kd, name, self._pristine[name])
+            elif hasattr(kd, name):
+                try:
+                    delattr(kd, name)
+                except AttributeError:
+                    pass
+
     # -- helpers ---------------------------------------------------------------
     def probe(self, name, n=1):
         self.probes[name] = self.probes.get(name, 0) + n
@@ -496,12 +566,17 @@ def run_one(cfg, decisions=None, keep_events=False):
     sched = baton.Scheduler(chooser, step_cap, trace_files=G["trace_files"],
                             on_step=world.on_step)
     world.sched = sched
+    world.init_private_state()
+    sched.on_switch_out = world.switch_out
+    sched.on_switch_in = world.switch_in
     procs = []
     fresh = None
     try:
         for spec in cfg["actors"]:
             a = sched.spawn(spec["name"], proc_main, start_at=spec.get("start_at", 0))
             a.data["loads"] = [tuple(x) for x in spec["loads"]]
+            if spec.get("forked_from"):
+                a.data["forked_from"] = spec["forked_from"]
             procs.append(a)
         sched.run()
         phase1_reason = sched.stop_reason
@@ -576,6 +651,7 @@ def run_one(cfg, decisions=None, keep_events=False):
             sched.teardown()
         except baton.HarnessError as exc:
             harness_error = harness_error or str(exc)
+        world.restore_pristine()
         kd.subprocess, kd.ct, kd.os, kd.tempfile, kd.SAS_DLL_PATH = saved
         shutil.rmtree(run_dir, ignore_errors=True)
     # ---- summarise ------------------------------------------------------------
@@ -643,6 +719,17 @@ def gen_config(run_seed, tier):
         else:
             start = c.randint(0, 2 * solo_max)
         actors.append({"name": "P%d" % i, "loads": loads, "start_at": start})
+    if n >= 3 and c.random() < 0.15:
+        # a parent that builds some other model first and then forks its workers
+        # (multiprocessing with the fork start method): the children inherit the
+        # parent's module state as it is at the fork
+        others = [m for m in models if m != main[0]]
+        actors[0]["loads"] = [[c.choice(others), "double"]]
+        actors[0]["start_at"] = 0
+        fork_at = c.randint(solo_max // 2, 2 * solo_max)
+        for a in actors[1:]:
+            a["forked_from"] = "P0"
+            a["start_at"] = fork_at + c.randint(0, 30)
     pk = c.random()
     if pk < 0.25:
         policy = {"kind": "uniform"}
@@ -781,7 +868,8 @@ def shrink_candidates(cfg, decisions):
 
 
 def sample_of(cfg, res):
-    return {"actors": [[a["name"], a["loads"], a.get("start_at", 0)] for a in cfg["actors"]],
+    return {"actors": [[a["name"], a["loads"], a.get("start_at", 0)] + ([a["forked_from"]] if a.get("forked_from") else [])
+                       for a in cfg["actors"]],
             "policy": cfg["policy"]["kind"], "kills": cfg["kills"],
             "cc_fail": [p["fail"] for p in cfg["cc_plans"] if p.get("fail")],
             "io_faults": cfg.get("io_faults", []),
@@ -822,7 +910,7 @@ EXPECTED_PROBES = [
     "lookup_during_foreign_compile", "load_during_foreign_compile", "two_compilers_same_library",
     "kill_before_output", "kill_after_partial", "kill_after_full_output", "kill_after_source_unlink",
     "orphan_compiler_running", "compiler_failed_with_partial_output", "cache_hit",
-    "own_compile_failure_reported", "own_io_failure_reported",
+    "own_compile_failure_reported", "own_io_failure_reported", "forked_child_inherits_module_state",
 ]
 
 
